@@ -5,7 +5,10 @@ LEVEL = "proof"
 RULE = ("every randomised operation twice on the same tape (identical outputs), on tapes that differ in exactly one byte at every "
         "region boundary and at sampled positions (outputs change iff the position is below the number of bytes the operation draws "
         "and not masked by clamping - decided byte for byte by the model's prediction), on independent tapes (no random value "
-        "repeats) and within a run (no two random values coincide); tape bytes consumed equal the model's. distinct = distinct "
+        "repeats) and within a run (no two random values coincide); tape bytes consumed equal the model's; key generation on tapes "
+        "that start with one or two chunks the sampler must reject (zero, the group order, beyond it) followed by boundary keys "
+        "(1, order-1): the key comes from the following bytes; every tape operation also with a generator whose fallible entry "
+        "point fails (`op!`): same answer or an error. distinct = distinct "
         "(suite, op, args)")
 ASSUMPTIONS = ["raw comparison: the model predicts every output byte and every tape position"]
 
@@ -39,6 +42,7 @@ def determinism(ctx, npos):
         if not ctx.expect(r1.ok and r2.ok, "%s succeeds on the tape" % op):
             continue
         ctx.expect(r1.payload == r2.payload, "%s: identical tapes give identical outputs" % op)
+        fallible_rng_same(ctx, r1, op, *mk(tape))
         used = int([x for x in r1.outs if x.isdigit()][-1])
         pos = sorted(set([0, used - 1, used, used + 1, len(tape) - 1] + [rnd.randrange(len(tape)) for _ in range(npos)]))
         for p in pos:
@@ -82,10 +86,57 @@ def freshness(ctx):
     ctx.expect(q1.b(1) != q2.b(1) and q1.b(0)[:L.Nok] != q2.b(0)[:L.Nok], "blinds and requests for one password differ across tapes")
 
 
+ORDERS = {"P256": 0xffffffff00000000ffffffffffffffffbce6faada7179e84f3b9cac2fc632551,
+          "P384": 0xffffffffffffffffffffffffffffffffffffffffffffffffc7634d81f4372ddf581a0db248b0a77aecec196accc52973,
+          "P521": int("1ff" + "f" * 56 + "fffffffa" + "51868783bf2f966b7fcc0148f709a5d03bb5c9b8899c47aebb6fb71e91386409", 16),
+          "R255": 2 ** 252 + 27742317777372353535851937790883648493}
+
+
+def rejection(ctx):
+    """key generation is rejection sampling: a chunk that is not a valid private key (zero, the group order, beyond it)
+    is skipped and the key comes from the NEXT bytes of the tape - never from a constant or fallback value"""
+    ctx.nontrivial = True
+    L = ctx.L
+    if L.ke == "X25519":
+        r = ctx.call("ke_random_sk", bytes(32) + ctx.tape(8))      # clamping: every chunk is accepted, even all-zero
+        ctx.expect(r.ok and r.n(1) == 32, "Curve25519 key generation clamps, no rejection")
+        return
+    n = ORDERS[L.ke]
+    if L.ke == "R255":
+        rej = [bytes(64), n.to_bytes(32, "little") + bytes(32), (2 * n).to_bytes(64, "little"), (n << 250).to_bytes(64, "little")]
+        acc = [((n - 1).to_bytes(64, "little"), (n - 1).to_bytes(32, "little")), ((n + 1).to_bytes(64, "little"), (1).to_bytes(32, "little")),
+               (ctx.tape(64), None)]
+    else:
+        rej = [bytes(L.Nsk), b"\xff" * L.Nsk, n.to_bytes(L.Nsk, "big"), (n + 1).to_bytes(L.Nsk, "big")]
+        acc = [((n - 1).to_bytes(L.Nsk, "big"), (n - 1).to_bytes(L.Nsk, "big")), ((1).to_bytes(L.Nsk, "big"), (1).to_bytes(L.Nsk, "big")),
+               ((n >> 9).to_bytes(L.Nsk, "big"), (n >> 9).to_bytes(L.Nsk, "big"))]
+    ctx.counting = True
+    for a, want in acc:
+        spare = ctx.tape(9)
+        r0 = ctx.call("ke_random_sk", a + spare)
+        if not ctx.expect(r0.ok and r0.n(1) == len(a), "a valid chunk is accepted at once"):
+            continue
+        if want is not None:
+            ctx.expect(r0.b(0) == want, "the key is the chunk's value")
+        for k, c in enumerate(rej):
+            r = ctx.call("ke_random_sk", c + a + spare)
+            ctx.expect(r.ok and r.b(0) == r0.b(0) and r.n(1) == len(c) + len(a),
+                       "rejected chunk %d is skipped and the key is drawn from the following bytes" % k)
+            r = ctx.call("ke_random_sk", c + rej[(k + 1) % len(rej)] + a + spare)
+            ctx.expect(r.ok and r.b(0) == r0.b(0) and r.n(1) == 2 * len(c) + len(a), "two rejected chunks in a row are both skipped")
+    # the same inside the server setup: a rejected first chunk shifts everything, the keys stay tape-drawn (model compares bytes)
+    t = ctx.tape(2 * L.Nsk + L.Nh + 200)
+    r0 = ctx.call("setup_new", t)
+    for c in rej[:2]:
+        r = ctx.call("setup_new", c + t)
+        ctx.expect(r.ok, "server setup on a tape that starts with a rejected chunk")
+
+
 def cases(tier, seed):
     out = []
     for si, s in enumerate(suites_for(tier, seed)):
         out.append(dict(script=determinism, suite=s, seed=seed * 1000 + si, mode="raw", params=dict(npos=(6 if tier == "quick" else 60))))
+        out.append(dict(script=rejection, suite=s, seed=seed * 1000 + 500 + si, mode="raw", params={}))
         for k in range(1 if tier == "quick" else 4):
             out.append(dict(script=freshness, suite=s, seed=seed * 1000 + 100 + si * 10 + k, mode="raw", params={}))
     return out
